@@ -11,11 +11,72 @@ SPEC = dict(
          "shard tree) is frozen before EVERY mutation and after every torn prefix of every write; each distinct image is recovered "
          "with the real open path (compaction-log recovery, WAL replay) and its full dump compared with the last-write-wins reference "
          "as of the last acknowledged op (in-flight op: absent or complete); evaluations = recoveries, distinct_nontrivial = distinct "
-         "crash images holding data or taken inside an op",
+         "crash images holding data or taken inside an op; "
+         "a second binary built with the WAL file size shrunk to 16 bytes runs long overwrite histories (22+ writes) so that log-file "
+         "roll-over and multi-digit file sequences are reached, crash images split over the workers",
     assumptions=["process-crash model: the OS survives, un-synced blocks are not lost",
                  "mutations that bypass lib/fileops are not crash points themselves (images are still frozen copies of the real tree)",
                  "logical clock of the index is advanced on every reopen, as the meta service does for a restarted store"],
 )
+
+
+def _rotation_overlay(cid, tier):
+    """engine/wal.go of the CURRENT tree with DefaultFileSize shrunk, so that every WAL record rolls the log file."""
+    import os, re
+    import checklib
+    src = os.path.join(checklib.REPO, "engine/wal.go")
+    txt = open(src).read()
+    new, n = re.subn(r"DefaultFileSize\s*=\s*10 \* 1024 \* 1024", "DefaultFileSize   = 16", txt)
+    if n != 1:
+        checklib.tool_error("constant DefaultFileSize not found in engine/wal.go (rotation overlay)")
+    dst = os.path.join(checklib.build_dir(cid), "rotation", "wal.go")
+    os.makedirs(os.path.dirname(dst), exist_ok=True)
+    with open(dst, "w") as fh:
+        fh.write(new)
+    return {src: dst}
+
+
+def run(tier, replay):
+    import json, os, shutil, time
+    import checklib
+    cid = "C01"
+    t0 = time.time()
+    rotation_replay = False
+    if replay:
+        try:
+            rotation_replay = bool((json.load(open(replay)).get("replay") or {}).get("rotation"))
+        except (OSError, ValueError):
+            pass
+        if not rotation_replay:
+            return checklib.run_gotest_check(cid, "quick", SPEC, replay)
+    hooks = SPEC["hooks"]
+    reports = []
+    scratch = checklib.scratch_root(cid)
+    try:
+        dl = int(os.environ.get("VERIF_DEADLINE_S", SPEC["deadline"][tier]))
+        if not replay:
+            ov = checklib.gen_overlay(cid, hooks)
+            binp = checklib.go_test_build(cid, SPEC["pkg"], ov)
+            reports += checklib.run_workers(cid, binp, SPEC["test"], tier, SPEC["workers"], dl, os.path.join(scratch, "a"))
+        # stage 2: roll-over binary (tiny WAL file size), long overwrite histories, crash images split over the workers
+        ov2 = checklib.gen_overlay(cid, hooks, _rotation_overlay(cid, tier))
+        bin2 = checklib.go_test_build(cid, SPEC["pkg"], ov2, out=os.path.join(checklib.build_dir(cid), "t-rotation.bin"))
+        env = {"VERIF_C01_MODE": "rotation"}
+        if replay:
+            env["VERIF_REPLAY"] = os.path.abspath(replay)
+            reps = checklib.run_workers(cid, bin2, SPEC["test"], "quick", 1, 900, os.path.join(scratch, "r"), extra_env=env)
+            nv = sum(r.get("n_violations", 0) for r in reps)
+            for r in reps:
+                for v in r.get("violations") or []:
+                    print("REPLAY-VIOLATION kind=%s key=%s\n  %s" % (v["kind"], v["key"], v["detail"][:1500]))
+            print("replay: %s" % ("still fails" if nv else "passes"))
+            return 1 if nv else 0
+        reports += checklib.run_workers(cid, bin2, SPEC["test"], tier, SPEC["workers"], max(120, dl // 2), os.path.join(scratch, "b"), extra_env=env)
+        return checklib.finish(cid, tier, SPEC["level"], SPEC["rule"], reports, t0, SPEC.get("assumptions"))
+    finally:
+        shutil.rmtree(scratch, ignore_errors=True)
+
+
 CLAIMED = True
 MANIFEST = dict(
     level="fault_enumeration", engine="crashfs",
